@@ -103,6 +103,8 @@ class GdbSim:
         self.exec_log = []
         self.state.on_execute = self._on_execute
         self.state.on_write = self._on_write
+        self.state.on_selected_thread = self._on_selected_thread
+        self.thread_calls = 0
         self.current_cmd = None
         self.order = []              # ConnState indexes in order of first message (expected naming order)
         self.notes = []              # ground-truth connection events: ('open', conn idx) / ('close', conn idx) / ('silent-destroy', ...)
@@ -121,6 +123,19 @@ class GdbSim:
                 raise KeyboardInterrupt()
         for line in text.split('\n')[:-1] if text.endswith('\n') else text.split('\n'):
             self.rec.add('out', line)
+
+    def _on_selected_thread(self):
+        f = self.cfg.get('fault_in_selected_thread')
+        self.thread_calls += 1
+        if f is not None and self.thread_calls - 1 == f[0]:
+            # input-side fault: the user's Ctrl-C (or a thread that has just exited) makes this gdb call raise
+            self.fault_fired = True
+            self.rec.add('fault-api', 'selected_thread:' + f[1])
+            k = 'fault_selected_thread_raised_' + f[1]
+            self.counters[k] = self.counters.get(k, 0) + 1
+            if f[1] == 'KeyboardInterrupt':
+                raise KeyboardInterrupt()
+            raise self.gdb.error('Selected thread is running.')
 
     def _on_execute(self, command):
         self.rec.add('execute', command)
@@ -388,7 +403,7 @@ class GdbSim:
             raise
         except BaseException as e:  # noqa  (real gdb prints the error and stops the inferior)
             import traceback
-            if isinstance(e, KeyboardInterrupt) and getattr(self, 'fault_fired', False):
+            if (isinstance(e, KeyboardInterrupt) or type(e).__name__ == 'error') and getattr(self, 'fault_fired', False):
                 info['injected_fault'] = True      # our own fault coming back out of stop(): expected, gdb halts the program
                 info['stop'] = True
             else:
